@@ -14,7 +14,7 @@ def run(tier, seed):
                                   threads=[4, 8, 2, 12, 3, 16, 6], gvts=[1000, 0, 100000, 300, 20])
     sim_common.run_sim_cases(chk, cases, timeout=300)
     # remote windows (cancel before arrival / found in history) need real MPI ranks
-    mcases = mpi_common.make_cases("C06", tier, seed, 12 if tier == "quick" else 150, variants=(0,), fault_rates=(0, 40), layouts=[(2, 2), (2, 1), (3, 1), (3, 2)])
+    mcases = mpi_common.make_cases("C06", tier, seed, 12 if tier == "quick" else 150, variants=(0,), fault_rates=(0, 40), layouts=[(2, 2), (2, 1), (3, 1), (3, 2)], burst=4)
     mpi_common.run_mpi_cases(chk, mcases, timeout=30 if tier == "quick" else 90)
     chk.rule = ("one case = (generated model with few LPs per thread and heavy cross-thread traffic, 2..16 threads, failpoints right after every flag update and "
                 "before re-insertion); the four local windows (cancel before / after the receiver processed, undo of an already cancelled event, undo with "
